@@ -1,7 +1,9 @@
 #![forbid(unsafe_code)]
 #![allow(unused, unused_must_use)]
 use gecs::prelude::*;
+#[derive(Clone)]
 pub struct CompA(pub u32);
+#[derive(Clone)]
 pub struct CompB(pub u32);
 pub struct CompRc(pub std::rc::Rc<u32>);
 ecs_world! {
@@ -22,7 +24,7 @@ fn main() {
     let mut world = EcsWorld::default();
     let e = world.create::<ArchFoo>((CompA(1), CompB(2)));
     let e2 = world.create::<ArchFoo>((CompA(3), CompB(4)));
-    { let kept = world.archetype::<ArchFoo>();
-    let _ = kept.len(); }
-    world = world.clone();
+    { let kept: ArchFooView = world.arch_foo.data.get_view_mut(e).unwrap();
+    kept.comp_a.0 += 1; }
+    world.create::<ArchFoo>((CompA(9), CompB(9)));
 }
